@@ -48,7 +48,20 @@ Input space (deterministic, exhaustive over the grammar below; `seed` permutes o
   dialects: up to 2 per NormalizationStrategy (alphabetical) + bigquery snowflake postgres mysql tsql duckdb base;
   CASE_INSENSITIVE_UPPERCASE has no built-in dialect and is reached through the documented dialect setting
   "<dialect>, normalization_strategy=case_insensitive_uppercase".
-  skeleton families: see skeletons().
+  skeleton families (skeletons(); every element of the finite products written there, nesting <= 2):
+    plain, plain-hidden-name, plain-fullqual[-aliased], plain-unknown-column      unqualified / partially / fully qualified columns
+    star, star-multi, star-except-replace, star-except-unknown                    * , x.* , EXCEPT|EXCLUDE (..) , REPLACE (..)
+    join-on, join-on-ambiguous, using-star, using-col, using-qstar, using-unknown-column   ON / USING with 1-2 columns, 2-3 tables
+    alias-where|group|having|order|order-out-of-range|shadow|agg|project, having-column    references to output names / ordinals
+    derived, derived-mixed, derived-colalias, derived-nested, derived-duplicate-names, derived-shadow, derived-outer-ref
+    cte, cte-mixed, cte-using, cte-colalias, cte-shadow, cte-chain, cte-in-subquery
+    corr-exists|in|scalar|star, corr-hidden-name, corr-alias-shadow, corr-same-table, corr-nested, corr-sibling
+    union, union-order, union-derived, union-cte, union-subquery
+  A triple whose query does not parse in the dialect is counted "unparsed" and is not an evaluation.
+  Harness self-check (AssertionError = checker error): for star-free queries the names this module expects are the
+  names sqlglot's parser reports for the input (named_selects), before any folding.
+
+Measured on the unchanged tree (16 workers, machine shared): quick 46320 triples in ~60 s wall, thorough ~600 k.
 
 Keys: c10:<clause>:<strategy, or dialect name for dialects that override normalize_identifier>:<skeleton family>
 """
@@ -856,7 +869,7 @@ QUICK_CFGS = SAME + [
     ("lower", "mixed", "lower", "mixed"),
     ("nonascii", "nonascii2", "nonascii", "nonascii2"),
 ]
-PAIRS = [(s, s) for s in SCHEMES] + [("upper", "lower"), ("lower", "mixed"), ("mixed", "quoted"), ("quoted", "upper"), ("nonascii", "nonascii2")]
+PAIRS = [(s, s) for s in SCHEMES] + [("upper", "lower"), ("lower", "mixed"), ("nonascii", "nonascii2")]
 
 
 def thorough_cfgs():
